@@ -306,6 +306,35 @@ MIX_REPS = {"monoidal": [0, 10], "rigid": [1, 8, 16], "pregroup": [1], "tensor":
             "zx": [0, 16, 18], "biclosed": [0, 4], "cartesian": [0, 6]}
 
 
+_REPS = {}
+
+
+def reps_of(cls):
+    """Representatives of a class for the mixing grid: the fixed ones plus the first two values with
+    an empty domain and the first two with an empty codomain (composition across classes is only
+    possible through the empty type, which all classes share)."""
+    if cls not in _REPS:
+        from mc import zoo
+        ents = zoo.entries(cls)
+        out = [ents[i] for i in MIX_REPS[cls]]
+        for side in ("dom", "cod"):
+            n = 0
+            for e in ents:
+                if e in out or "ubble" in e or "foliation" in e:
+                    continue
+                try:
+                    v = zoo.value(cls, e)
+                except Exception:
+                    continue
+                if len(getattr(v, side)) == 0 and len(v.dom) + len(v.cod) > 0:
+                    out.append(e)
+                    n += 1
+                    if n == 2:
+                        break
+        _REPS[cls] = out
+    return _REPS[cls]
+
+
 def check_mix(params):
     """Two values of *different* classes combined with @ and >> (both orders): the request is
     refused or the result is well-typed."""
@@ -431,8 +460,8 @@ def run(ctx):
         for c2 in MIX_REPS:
             if c1 == c2:
                 continue
-            e1s = zoo.entries(c1) if not ctx.quick else [zoo.entries(c1)[i] for i in MIX_REPS[c1]]
-            e2s = [zoo.entries(c2)[i] for i in MIX_REPS[c2]]
+            e1s = zoo.entries(c1) if not ctx.quick else reps_of(c1)
+            e2s = reps_of(c2)
             for e1 in e1s:
                 for e2 in e2s:
                     items.append(("mix", dict(cls1=c1, expr1=e1, cls2=c2, expr2=e2)))
